@@ -158,6 +158,13 @@ def faults(ctx, rng, kind, data, budget):
         for ep in ("0", "1", "99999999999", "999999999999999", "18446744073709551616", "-1"):
             nums.append("type=X msg=audit(%s.123:45): x" % ep)
             nums.append("%s.123456 write(1, x" % ep)
+        # year-less (classic syslog) logs that do not begin with a dated line: the backward year pass has to cope with a
+        # head that gives no timestamp
+        body = b"".join(b"Jan 10 10:00:%02d host app[1]: S90M%d line\n" % (i, i) for i in range(6))
+        for lead in (b"logfile turned over\n", b"\n", b"\x00\x00\x00\x00\n", b"\xef\xbb\xbf\xff\xfe junk\n", b"2024-01-01 00:00:00 another format\n",
+                     b"Feb 29 10:00:00 host app[1]: leap\nFeb 29 10:00:01 host app[1]: leap\n", b"header one\nheader two\n\n", b" Jan 10 cut off"):
+            out.append(("hostile-text:yearless-log-with-undated-head", lead + body))
+            out.append(("hostile-text:yearless-log-with-undated-head", lead + body + lead))
         out.append(("hostile-text:field-limits", ("\n".join(nums) + "\n").encode()))
         for one in nums:
             out.append(("hostile-text:field-limit-first-line", (one + "\n" + one + "\n").encode()))
